@@ -144,7 +144,7 @@ def attribute(jobs, prop, also=("ANY",)):
                 rec = {"v": v, "job": job, "xn": xn, "hdr": hdr, "cmds": cmds}
                 if v["prop"] == "X":
                     infra.append(rec)
-                elif v["prop"] == prop or v["prop"] in also:
+                elif v["prop"] == prop or v["prop"] in also or (v["prop"] + "/" + v["rule"]) in also:
                     violations.append(rec)
                 else:
                     others.append(rec)
